@@ -108,12 +108,12 @@ def sradar(key, sends, n_lines_last, expect_tables, retry=False, disconnect=None
     """sends: segments with a gap between (nogap: back-to-back sends instead); disconnect: None | 'exit' | 'retry';
     partial: bytes of an incomplete line sent right before the close (partial_gap: a read timeout elapses first);
     after: bytes sent after the reconnect"""
-    steps = [{'op': 'keys', 'hex': F3}, {'op': 'sync', 'n': 3}]
+    steps = [{'op': 'keys', 'hex': F3}, {'op': 'sync', 'n': 2}]
     for i, seg in enumerate(sends):
         if i and not nogap:
             steps.append({'op': 'gap'})
         steps.append({'op': 'send', 'hex': hexs(seg)})
-    steps.append({'op': 'sync', 'n': n_lines_last + 3})
+    steps.append({'op': 'sync', 'n': n_lines_last + 2})
     steps.append({'op': 'snap', 'name': 'table'})
     argv = list(e4lib.BASE_ARGV)
     if retry:
@@ -130,10 +130,10 @@ def sradar(key, sends, n_lines_last, expect_tables, retry=False, disconnect=None
             steps.append({'op': 'wait_exit'})
         else:
             steps.append({'op': 'accept'})
-            steps.append({'op': 'sync', 'n': 3})
+            steps.append({'op': 'sync', 'n': 2})
             if after:
                 steps.append({'op': 'send', 'hex': hexs(after)})
-            steps.append({'op': 'sync', 'n': n_after + 3})
+            steps.append({'op': 'sync', 'n': n_after + 2})
             steps.append({'op': 'snap', 'name': 'table2'})
             steps.append({'op': 'quit', 'hex': '71'})
     return {'binary': 'radar', 'oracle': 'c16_radar', 'key': key, 'argv': argv, 'size': RADAR_SIZE, 'filler': False,
